@@ -195,14 +195,23 @@ def run(check: core.Check) -> None:
     em = core.require_ok(core.run_tlc("ScopeGenEmit", "ScopeGen.emit3.cfg" if quick else "ScopeGen.emit4.cfg", timeout=3000), "emit")
     check.add_tlc("emit", em)
     progs = core.emitted_json(em)
-    limit = 2200 if quick else 10**7
+    limit = 1000 if quick else 10**7
     exhaustive = len(progs) <= limit
     if not exhaustive:
         progs = rnd.sample(progs, limit)
     check.cov["exhaustive"] = exhaustive
     check.cov["rule"] = "function bodies built by TLC's generator (ScopeGen.tla); non-trivial = contains a control construct"
     judge(check, progs, "tlc-exhaustive")
-    sim = core.simulate_cases("ScopeGenEmit", "ScopeGen.sim.cfg", 300 if quick else 12000, depth=30, seed=check.seed + 9,
+    # targeted slice: try / suppressing with nested in if-branches, one variable, depth 3 (5 statements exhaustively on
+    # the model; replayed exhaustively in both tiers; 6 statements model-checked in thorough)
+    nest = core.require_ok(core.run_tlc("ScopeGenEmit", "ScopeGen.nested5.cfg", timeout=3000), "ScopeGen nested5")
+    check.add_tlc("nested5", nest)
+    nprogs = core.emitted_json(nest)
+    judge(check, nprogs, "tlc-nested-suppress")
+    if not quick:
+        nest6 = core.require_ok(core.run_tlc("ScopeGen", "ScopeGen.nested6.cfg", timeout=3400), "ScopeGen nested6")
+        check.add_tlc("nested6-model-only", nest6)
+    sim = core.simulate_cases("ScopeGenEmit", "ScopeGen.sim.cfg", 120 if quick else 12000, depth=30, seed=check.seed + 9,
                               check=check)
     judge(check, sim, "tlc-simulate")
 
